@@ -760,44 +760,91 @@ func (fr *frame) indexRead(cells []value, idx value, t types.Type) value {
 		}
 		return cells[c]
 	}
-	scalar := n > 0 && n <= 256
-	w := -1
-	if scalar {
-		for _, cell := range cells {
-			var cw int
-			switch x := cell.(type) {
-			case *Term:
-				cw = x.w
-			case bool:
-				cw = 0
-			case int, int64, uint, uint64, uintptr:
-				cw = 64
-			case int32, uint32:
-				cw = 32
-			case int16, uint16:
-				cw = 16
-			case int8, uint8:
-				cw = 8
-			default:
-				scalar = false
-			}
-			if !scalar {
-				break
-			}
-			if w == -1 {
-				w = cw
-			} else if w != cw {
-				scalar = false
-				break
-			}
-		}
-	}
-	if !scalar {
+	if n == 0 || n > 256 || !iteCells(cells) {
 		return cells[fr.checkIndex(idx, t, n)]
 	}
 	inb := mkCmp(OpUlt, tm, mkConst(64, uint64(n)))
 	if !fr.truth(norm(inb, boolType), "index") {
 		fr.i.rtPanic(fr, fmt.Sprintf("index out of range [symbolic] with length %d", n))
+	}
+	return iteChain(cells, tm)
+}
+
+// cellWidth is the bit width of a scalar cell (0 = bool, -1 = not a scalar).
+func cellWidth(cell value) int {
+	switch x := cell.(type) {
+	case *Term:
+		return x.w
+	case bool:
+		return 0
+	case int, int64, uint, uint64, uintptr:
+		return 64
+	case int32, uint32:
+		return 32
+	case int16, uint16:
+		return 16
+	case int8, uint8:
+		return 8
+	}
+	return -1
+}
+
+// iteCells reports whether a read at a symbolic index can be an ite-chain: all cells are
+// scalars of one width, or structs (of structs ...) of such scalars with one shape.
+func iteCells(cells []value) bool {
+	if st, ok := cells[0].(structure); ok {
+		for _, c := range cells {
+			o, ok := c.(structure)
+			if !ok || len(o) != len(st) {
+				return false
+			}
+		}
+		for f := range st {
+			col := make([]value, len(cells))
+			for k, c := range cells {
+				col[k] = c.(structure)[f]
+			}
+			if !iteCells(col) {
+				return false
+			}
+		}
+		return true
+	}
+	w := cellWidth(cells[0])
+	if w < 0 {
+		return false
+	}
+	for _, c := range cells {
+		if cellWidth(c) != w {
+			return false
+		}
+	}
+	return true
+}
+
+func iteChain(cells []value, tm *Term) value {
+	n := len(cells)
+	if st, ok := cells[0].(structure); ok {
+		out := make(structure, len(st))
+		for f := range st {
+			col := make([]value, n)
+			for k, c := range cells {
+				col[k] = c.(structure)[f]
+			}
+			out[f] = iteChain(col, tm)
+		}
+		return out
+	}
+	// all cells concrete and equal: no term needed
+	same := true
+	for _, c := range cells {
+		if _, sym := c.(*Term); sym || c != cells[0] {
+			same = false
+			break
+		}
+	}
+	if same {
+		return cells[0]
 	}
 	res := termOf(cells[n-1])
 	for k := n - 2; k >= 0; k-- {
@@ -1178,7 +1225,16 @@ func (fr *frame) callBuiltin(callpos token.Pos, fn *ssa.Builtin, args []value) v
 				}
 			}
 		case []value:
-			abandon("clear of slice")
+			// fn.Type() is the instantiated signature func([]T): zero every element in place
+			if sig, ok := fn.Type().(*types.Signature); ok && sig.Params().Len() == 1 {
+				if st, ok := sig.Params().At(0).Type().Underlying().(*types.Slice); ok {
+					for k := range x {
+						fr.i.store(st.Elem(), &x[k], zero(st.Elem()))
+					}
+					return nil
+				}
+			}
+			abandon("clear of slice of unknown element type")
 		}
 		return nil
 	}
